@@ -48,7 +48,8 @@ RULE = (
     "distinct_nontrivial = distinct (network, tree, order, compress_late) "
     "with >=1 multi-edge merge opportunity or >=3 tensors"
 )
-ASSUMPTIONS = []
+ASSUMPTIONS = ["largest tensor = max over inputs and intermediates (the "
+               "compressed tracker counts the input tensors as well)"]
 
 CHIS = [1, 2, 4, 16]
 HUGE = 10**12
@@ -187,7 +188,46 @@ def stats_case(inputs, output, sd, nested, res, tier):
                      "compress_late": late}, bad[:4])
 
 
+def private_index_case(inputs, output, sd, nested, res):
+    """the same equalities for a network one of whose tensors carries an
+    index of its own (summed, not in the output): 'ordinary' by the
+    property's definition.  The exact tree sums it as free preprocessing, the
+    compressed simulation keeps it on the tensor."""
+    inputs = ((inputs[0] + ("Z",)),) + tuple(inputs[1:])
+    sd = {**sd, "Z": 5}
+    n = len(inputs)
+    tree = nets.build_tree(inputs, output, sd, nested)
+    rc = ref.RefCosts(inputs, output, sd)
+    steps = list(tree.traverse())
+    exact = rc.tree_stats(steps)
+    for late in (False, True):
+        res.evals += 1
+        res.key((inputs, output, nested, "private-index", late))
+        base = tree.compressed_contract_stats(chi=HUGE, compress_late=late)
+        bad = []
+        if base.flops != exact["flops"]:
+            bad.append(("flops", base.flops, exact["flops"]))
+        want_max = max([rc.size([i]) for i in range(n)]
+                       + [rc.size(p) for p, _, _ in steps])
+        if base.max_size != want_max:
+            bad.append(("max_size", base.max_size, want_max))
+        if bad:
+            res.violation(
+                "compressed-stats:private-index:" + str(bad[0][0]),
+                {"kind": "stats-private-index", "inputs": inputs,
+                 "output": output, "sizes": sd, "tree": nested,
+                 "compress_late": late}, bad[:3], max_per_unit=1)
+
+
 def work_stats(a, b, tier, seed, res):
+    if a == 0:
+        # sub-family: one private summed index added to the first tensor
+        for inputs, output in [f for f in family(tier)
+                               if len(f[0]) in (3, 4)][:40]:
+            inds = U.used_inds(inputs)
+            sd = {ix: PRIMES[i % 5] for i, ix in enumerate(inds)}
+            for nested in U.all_trees(range(len(inputs))):
+                private_index_case(inputs, output, sd, nested, res)
     for inputs, output in family(tier)[a:b]:
         n = len(inputs)
         inds = U.used_inds(inputs)
